@@ -1,5 +1,12 @@
 (* C03 - formatted output is whitespace-transparent for normalised documents.
-   Statements only; proofs in Ws/WsVariantFacts.v, Ws/PrettyVariant.v, Ws/WrapSerFacts.v. *)
+   Statements only; proofs in Ws/WsVariantFacts.v, Ws/PrettyVariant.v, Ws/WrapSerFacts.v.
+
+   Domain of the indentation: the statements quantify over `ws_indent ind` (SimplePP.v): strings of space, tab and
+   newline.  The code accepts exactly XML's white space since 9955ff3 - space, tab, carriage return, newline
+   (_get_serializer raises ValueError otherwise; before, str.isspace() let U+00A0, U+2003, VT, FF ... through, which made
+   the output with aligned attributes ill-formed: finding C03-indentation-not-xml-whitespace, fixed).  `ws_indent` is a
+   sub-domain of that, so the theorems apply as they stand; carriage returns in the indentation (which a parser reads
+   as newlines) and the refusal of everything else at every entry point are covered by ./check C03 only. *)
 From Coq Require Import List NArith ZArith Bool.
 From Delb.Base Require Import PyStr PyStrFacts.
 From Delb.Gen Require Import GenNames GenWrap.
